@@ -2,7 +2,7 @@
 # usage: tools_seed_import.sh <ID> <k>   -- confirm a sub-agent's mutation in a scratch worktree and keep it
 # under /verif/seeded/<ID>-m<k>/ . Nothing is ever committed to /repo.
 ID=$1; K=$2
-SRC=/tmp/wt/out/$ID/m$K
+SRC=${SEED_SRC:-/tmp/wt/out}/$ID/m$K
 DST=/verif/seeded/$ID-m$K
 WT=/tmp/seedwt-$ID-$K
 export GOFLAGS=-mod=mod GOPROXY=off GOSUMDB=off GOTOOLCHAIN=local
